@@ -36,7 +36,19 @@ def target_strategy(n):
 @st.composite
 def strat_rdr(draw, tier):
     big = tier == "thorough"
-    tab = draw(gt.table(10 if big else 6, 60 if big else 24))
+    if draw(st.integers(0, 2)) == 0:
+        # tables of a hundred entries and more (real tables have hundreds)
+        tab = draw(gt.table(10 if big else 7, 300 if big else 110,
+                            min_entries=40))
+        order = draw(st.sampled_from([None, "ascending", "descending"]))
+        if order and tab["kind"] in ("free", "orthogonal"):
+            # ... listed in the numerical order of their keys, as tables
+            # generated net by net from consecutive keys are
+            tab["entries"] = sorted(
+                tab["entries"], key=lambda e: gt.pattern_key_mask(
+                    tab, e["pat"])[0], reverse=order == "descending")
+    else:
+        tab = draw(gt.table(10 if big else 6, 60 if big else 24))
     return {"table": tab, "fn": "rdr",
             "target": draw(target_strategy(len(tab["entries"])))}
 
